@@ -8,6 +8,7 @@ package main
 import (
 	"encoding/json"
 	"os"
+	"runtime/pprof"
 
 	"github.com/semihalev/sdns/zzverif/vlib"
 )
@@ -43,6 +44,11 @@ func main() {
 		return
 	}
 
+	if pf := os.Getenv("C02_PROF"); pf != "" {
+		f, _ := os.Create(pf)
+		_ = pprof.StartCPUProfile(f)
+		defer pprof.StopCPUProfile()
+	}
 	selfTest(r)
 	if os.Getenv("C02_SKIP_A") == "" {
 		layerA(r, r.N(56, 1500), r.N(160, 500), r.N(64, 110))
@@ -72,5 +78,6 @@ func main() {
 	if os.Getenv("C02_SKIP_B") == "" {
 		requireB(r)
 	}
+	pprof.StopCPUProfile()
 	r.Finish("distinct = (entry point, model truth kind/data, rcode, secure flag, qname shape, |record set|) of ACCEPTED evaluator verdicts, plus (path, truth kind, request flavour) of cache syntheses; every accepted verdict / synthesis / admission decision is one evaluation")
 }
